@@ -312,7 +312,7 @@ PROPS["C12"] = dict(
     technique="bounded model checking with descriptor/process/thread accounting",
     explanation="c12 harness over container host/init endpoints; C03 harness for the tracer.",
     bounds={"history": "1 operation (quick), 2 (thorough)", "delay bound": "1"},
-    outside=["real process trees that daemonise (kernel clause: SIGKILL to -1 / pid-ns teardown)", "Build/Destroy of environments"],
+    outside=["real process trees that daemonise (kernel clause: SIGKILL to -1 / pid-ns teardown)", "startContainer itself (exec.Cmd, socket pair) and the descriptors it creates"],
     assumptions=["K-PROC: kill(-1,SIGKILL) in a pid namespace kills every process but init"],
     harnesses=[
         dict(pkg=CT, run="^VerifC12_Ops1$", tiers=["quick", "thorough"], replay="model", preempt=1, timeout=1500, reach=["settled", "program-ran"]),
@@ -321,6 +321,8 @@ PROPS["C12"] = dict(
         dict(pkg=FE, run="^VerifC07_Faults_p0$", tiers=["quick", "thorough"], replay="model", preempt=0, timeout=1500, reach=["start-error"]),
         dict(pkg=FE, run="^VerifC07_Faults_p2$", tiers=["quick", "thorough"], replay="model", preempt=0, timeout=1500, reach=["start-error"]),
         dict(pkg=US, run="^VerifC11_UnshareCancel$", tiers=["quick", "thorough"], replay="model", preempt=2, reach=["context-outlives-run"]),
+        # the real Builder.Build with every later step failing: a failed Build destroys what it started
+        dict(pkg=CT, run="^VerifC12_BuildFailure$", tiers=["quick", "thorough"], replay="model", preempt=0, reach=["build-failed", "failed-after-start", "built"]),
         dict(pkg=PT, run="^VerifC03_MultiProc$", tiers=["quick", "thorough"], replay="model", timeout=900),
     ],
 )
